@@ -861,6 +861,8 @@ def check(ctx: Ctx) -> None:
     check_sibling_protocol(ctx)
     check_children_retry(ctx)
     check_purge(ctx)
+    from . import _extra
+    _extra.check_repurpose_all(ctx, 'R2.11')
 
 
 SPEC = PropSpec(
